@@ -8,18 +8,21 @@ from .. import flow
 PID = "C18"
 LEVEL = "other"
 EXPLANATION = (
-    "Effect / ledger analysis over MIR of the async client's request manager and its two handler functions. R1 (effect "
-    "summaries): for every RequestManager method the net number of entries added to / removed from each of the four "
-    "tables (requests, subscriptions, batches, notification_handlers) is computed over all acyclic paths, separately for "
-    "paths that report success (Some / Ok) and paths that report failure (None / Err), from the std HashMap / Entry API "
-    "calls (insert, VacantEntry::insert = +1; remove, remove_entry = -1; replace in place = 0); a failure path must have "
-    "effect 0; the struct has exactly these four tables. R2 (ledger): every lifecycle the statement names is assembled "
-    "from the handler paths that realise its events - call; batch; subscribe refused by an error response / by a "
-    "malformed subscription id / by a duplicate subscription id; accepted then closed by the server; accepted then "
-    "unsubscribed (explicitly, by drop, or for lagging) and acknowledged; accepted but the caller is gone; notification "
-    "handler registered then unregistered / closed / lagged - and the summed effect on every table must be zero. R3 a "
-    "completion consumes its entry (= C03.R4) and both failure arms of process_notification remove the handler. "
-    "NOT decided: allocator behaviour; that no state exists outside the four tables beyond the struct's field list."
+    "Effect / ledger analysis over MIR of the async client's request manager and its two handler functions. R1 "
+    '(effect summaries): for every RequestManager method the net number of entries added to / removed from each of '
+    'the four tables (requests, subscriptions, batches, notification_handlers) is computed over all acyclic paths, '
+    'separately for paths that report success (Some / Ok) and paths that report failure (None / Err), from the std '
+    'HashMap / Entry API calls (insert, VacantEntry::insert = +1; remove, remove_entry = -1; replace in place = 0); a '
+    'failure path must have effect 0; the struct has exactly these four tables. R2 (ledger): every lifecycle the '
+    'statement names is assembled from the handler paths that realise its events - call; batch; subscribe refused by '
+    'an error response / by a malformed subscription id / by a duplicate subscription id; accepted then closed by the '
+    'server; accepted then unsubscribed (explicitly, by drop, or for lagging) and acknowledged; accepted but the '
+    'caller is gone; notification handler registered then unregistered / closed / lagged - and the summed effect on '
+    'every table must be zero. R3 a completion consumes its entry (= C03.R4) and both failure arms of '
+    "process_notification remove the handler. ARR inside the loop over an array message's elements "
+    'handle_recv_message is left only with an error (a successful early return would leave the batch entry and later '
+    'close notifications unprocessed forever). NOT decided: allocator behaviour; that no state exists outside the '
+    "four tables beyond the struct's field list."
 )
 RULE_TEXT = "instances = per-method effect summaries (success / failure), lifecycle sums per table"
 TRUSTED = ["rustc MIR", "std HashMap / Entry API semantics"]
